@@ -15,7 +15,14 @@ pub struct LalrResult {
 
 /// `g` is augmented internally with S' -> S (production index = g.prods.len()).
 pub fn lalr1_conflicts(g: &RBnf) -> LalrResult {
-    let mut prods: Vec<(usize, Vec<RSym>)> = g.prods.clone();
+    // productions are a *set*: `S: 'a' 'b' | 'a' ( 'b' );` canonicalizes to two identical productions,
+    // which is the same grammar as with one of them (weaker reading of C04, see DESIGN.md 11.3)
+    let mut prods: Vec<(usize, Vec<RSym>)> = vec![];
+    for p in &g.prods {
+        if !prods.contains(p) {
+            prods.push(p.clone());
+        }
+    }
     let aug_nt = g.nts.len();
     let aug = prods.len();
     prods.push((aug_nt, vec![RSym::N(g.start)]));
